@@ -102,7 +102,13 @@ class FuncTable(dict):
     repo = None
     module = None
 
+    def __init__(self, *a, **k):
+        super().__init__(*a, **k)
+        self.aliases = {}          # old qualified name -> Func of a renamed private helper (sa/renames.py)
+
     def _imported(self, key):
+        if isinstance(key, str) and key in self.aliases:
+            return self.aliases[key]
         if self.repo is None or not isinstance(key, str) or '#' in key:
             return None
         if '.' in key:
@@ -142,7 +148,13 @@ class MethodTable(dict):
     real methods."""
     cls = None
 
+    def __init__(self, *a, **k):
+        super().__init__(*a, **k)
+        self.aliases = {}          # old name -> Func of a renamed private method (sa/renames.py)
+
     def _moved(self, key):
+        if isinstance(key, str) and key in self.aliases:
+            return self.aliases[key]
         if self.cls is None or not isinstance(key, str) or not key.startswith('_') or key.startswith('__'):
             return None
         f = dict.get(self.cls.module.functions, key)
@@ -245,6 +257,11 @@ class Repo:
             self._index(m)
         self._subclasses = None
         self.n_inlined = 0
+        self.renamed = {}
+        if os.environ.get('VERIF_NO_RENAMES') != '1':
+            # private helpers of the confirmed tree that were renamed are found again under their old name (sa/renames.py)
+            from .renames import resolve as _resolve_renames
+            self.renamed = _resolve_renames(self)
         if os.environ.get('VERIF_NO_INLINE') != '1':
             # private helpers of the same module / class are expanded in place (sa/inline.py)
             from .inline import expand_repo
